@@ -1547,7 +1547,20 @@ class Mailbox:
         #     during any asyncio process where we want to guarantee writership.
         #
         assert self.mh_sequences_lock.locked()
-        self.mailbox.set_sequences({k: list(v) for k, v in seqs.items()})
+
+        # NOTE: We only speak for the messages we know about. A message that
+        #       an MH agent has added to the folder since we last looked at it
+        #       is not in `seqs` yet: whatever sequences the agent put it in
+        #       (`unseen`, ..) must survive this rewrite, or the message would
+        #       be taken for a seen one when we do find it.
+        #
+        known = set(self.msg_keys)
+        merged: dict[str, set[int]] = {k: set(v) for k, v in seqs.items()}
+        for name, keys in self.mailbox.get_sequences().items():
+            unknown = [k for k in keys if k not in known]
+            if unknown:
+                merged.setdefault(name, set()).update(unknown)
+        self.mailbox.set_sequences({k: list(v) for k, v in merged.items()})
 
     ##################################################################
     #
